@@ -1,5 +1,7 @@
 package jet
 
+import "reflect"
+
 // ---- C17: isset never fails and is true exactly when every argument exists and is non-nil ----
 
 type c17Node struct {
@@ -278,4 +280,40 @@ func H_C17_shadowedNil() {
 	vfReach("checked")
 	vfAssert(err == nil, "isset never fails")
 	vfAssert(out == "false", "the innermost binding decides; a nil held in an interface is not set")
+}
+
+// H_C17_expressions: isset of arguments that are not access paths - the nil literal, calls
+// returning nil / a nil pointer / a value, literals, operations - alone, after a set
+// argument, and through Arguments.IsSet of a custom function: true exactly when the
+// argument evaluates to something that is not nil; never a failure.
+//
+//gosym:reach checked
+func H_C17_expressions() {
+	exprs := []string{`nil`, `getNil()`, `getNilPtr()`, `getVal()`, `1 + 2`, `"s"`, `0`, `false`, `""`, `d.Get()`, `boom()`}
+	wants := []bool{false, false, false, true, true, true, true, true, true, false, false}
+	e := ndChoice("expr", len(exprs))
+	form := ndChoice("form", 3)
+	src := []string{`{{ isset(` + exprs[e] + `) }}`, `{{ isset(one, ` + exprs[e] + `) }}`, `{{ js("a", ` + exprs[e] + `) }}`}[form]
+	set := hxSet(nil, "/m.jet", src)
+	vars := make(VarMap)
+	vars.Set("one", 1)
+	vars.Set("d", &c17Node{})
+	vars.Set("getNil", func() interface{} { return nil })
+	vars.Set("getNilPtr", func() *c17Node { return nil })
+	vars.Set("getVal", func() int { return 0 })
+	vars.SetFunc("boom", hxFail)
+	vars.SetFunc("js", func(a Arguments) reflect.Value {
+		if a.IsSet(1) {
+			return reflect.ValueOf("true")
+		}
+		return reflect.ValueOf("false")
+	})
+	out, err := hxExec(set, "/m.jet", vars, nil)
+	vfReach("checked")
+	vfAssert(err == nil, "isset never fails")
+	want := "false"
+	if wants[e] {
+		want = "true"
+	}
+	vfAssert(out == want, "set exactly when the argument evaluates to something that is not nil")
 }
